@@ -56,10 +56,12 @@ class FakeTransport(asyncio.Transport):
         self._lost_called = False
         self.closed_by: Optional[str] = None
         self.writes: list[tuple[float, bytes]] = []
+        self.rx_log = bytearray()  # every byte delivered to the client on this connection
         self.fail_after: Optional[int] = None  # fail the n-th write from now (1-based)
         self.black_hole = False
         self.write_paused = False
         self._read_paused = False
+        self._eof_seen = False
         self._pending_rx: list[bytes] = []
         self.opened_at = self.loop.time()
         self.closed_at: Optional[float] = None
@@ -150,12 +152,13 @@ class FakeTransport(asyncio.Transport):
 
     def feed(self, data: bytes) -> None:
         """Bytes arriving from the console (one TCP segment)."""
-        if self._closing or not data:
+        if self._closing or not data or self._eof_seen:
             return
         if self._read_paused:
             self._pending_rx.append(bytes(data))
             return
         self.net._event("rx", self.cid, bytes(data))
+        self.rx_log += data
         self.protocol.data_received(bytes(data))
 
     def peer_eof(self) -> None:
@@ -163,6 +166,7 @@ class FakeTransport(asyncio.Transport):
             return
         self.net._event("peer_eof", self.cid)
         keep_open = self.protocol.eof_received()
+        self._eof_seen = True
         if not keep_open:
             self.closed_by = self.closed_by or "peer"
             self.close()
@@ -171,6 +175,11 @@ class FakeTransport(asyncio.Transport):
         if self._closing:
             return
         self.net._event("peer_reset", self.cid)
+        if self._eof_seen:
+            # After EOF a selector transport no longer reads from the socket: a
+            # reset by the peer is only noticed by the next write.
+            self.fail_after = 1
+            return
         self._fatal(ConnectionResetError("injected peer reset"), who="peer")
 
     def fail_write(self, n: int = 1) -> None:
